@@ -125,11 +125,35 @@ CLAIM_KINDS = ["verified_true", "verified_false", "generic"]
 INNER_MODES = ["absent", "returns", "raises_value_error", "raises_permission"]
 
 
+def mk_req(S):
+    """The request as require_all / the gate may see it.  req.context is falcon's per-request scratch namespace: any
+    other authenticator, gate or middleware in the same chain may have written anything there, so an attribute read
+    finds either nothing or an arbitrary claims-shaped mapping (fixed at first read; writes are remembered)."""
+    ctx = SObj(None, kind="ReqContext")
+
+    def ctx_getattr(S, obj, name):
+        if S.choose(2) == 0:
+            raise PyRaise(SExc(AttributeError, (f"context has no attribute {name!r}",)))
+        v = {k: S.str(f"ctx_{name}_{k}") for k in ("verified", "proxy", "kid", "origin_id", "reason")}
+        obj.fields[name] = v
+        S.inputs["context_preset"] = name  # the native replay presets the same attribute (values from the model)
+        return v
+
+    S.handlers["ReqContext.__getattr__"] = ctx_getattr
+    return SObj(None, kind="Req", context=ctx)
+
+
 class _Req:
     remote_addr = "192.0.2.1"
 
-    def __init__(self, header=None):
+    def __init__(self, header=None, inputs=None):
+        import types
+
         self.header = header
+        self.context = types.SimpleNamespace()
+        name = (inputs or {}).get("context_preset")
+        if name:
+            setattr(self.context, name, {k: inputs.get(f"ctx_{name}_{k}", "true" if k == "verified" else "x") for k in ("verified", "proxy", "kid", "origin_id", "reason")})
 
     def get_header(self, name, default=None):
         return self.header if name == pf.PROOF_HEADER else default
@@ -155,6 +179,8 @@ def _native_inner(mode, shape, inputs, log):
 def _judge(res, exc, log, gate_ok, verified, gclaims, mode, ictx, inner_claims_before):
     """The property, on a native run (plain-Python transcription of the obligations)."""
     problems = []
+    if log.count("gate") != 1:
+        problems.append(f"gate consulted {log.count('gate')} times (call log {log})")
     if not gate_ok:
         if exc is None:
             problems.append("gate failed but the request was let through")
@@ -211,7 +237,7 @@ def replay_require_all(inputs, ob):
     auth = br.require_all(br.PreconditionGate(gate_fn, name=pf.GATE_NAME, claims_key=KEY), inner)
     res = exc = None
     try:
-        res = auth(_Req())
+        res = auth(_Req(None, inputs))
     except Exception as e:  # noqa: BLE001
         exc = e
     # a generic gate that returned has passed (it raises on failure); the proof gate passed iff verified == "true"
@@ -232,7 +258,7 @@ def require_all_unit(S):
     shape = S.choose(3) if imode == "returns" else 0
     ckind = CLAIM_KINDS[S.choose(len(CLAIM_KINDS))] if gmode == "returns" else "verified_true"
     S.inputs.update({"gate_mode": gmode, "inner_mode": imode, "claims_shape": shape, "claims_kind": ckind})
-    req = SObj(None, kind="Req")
+    req = mk_req(S)
     gst = {}
 
     def gate_fn(S, me, r):
@@ -293,7 +319,7 @@ REASONS = ["malformed", "unknown_kid", "expired", "not_yet_valid", "bad_mac", "r
 def proof_gate_setup(S, mode, header, cache_on):
     """The real gate object built by the real proxy_proof_gate; request, verifier (by contract) and cache abstract."""
     raw = S.str("raw") if header == "present" else None
-    req = SObj(None, kind="Req")
+    req = mk_req(S)
     S.handlers["Req.get_header"] = lambda S, r, name, default=None: raw if name == pf.PROOF_HEADER else default
     S.handlers[rp.NonceCache] = lambda S, **kw: SObj(None, kind="NonceCache")
     vst = {}
@@ -322,7 +348,7 @@ def replay_gate_claims(inputs, ob):
         hdr = pf.mint_proof(secret, "kid1", origin, now=now)
     gate = pf.proxy_proof_gate(pf.ProxyProofConfig(mode=mode, origin_id=origin, secrets={"kid1": (secret, "edge-proxy")}), now=lambda: now)
     try:
-        claims, exc = gate(_Req(hdr)), None
+        claims, exc = gate(_Req(hdr, inputs)), None
     except Exception as e:  # noqa: BLE001
         claims, exc = None, e
     problems = []
@@ -388,7 +414,7 @@ def replay_e2e(inputs, ob):
     auth = br.require_all(pf.proxy_proof_gate(cfg, now=lambda: now), inner)
     res = exc = None
     try:
-        res = auth(_Req(hdr))
+        res = auth(_Req(hdr, inputs))
     except Exception as e:  # noqa: BLE001
         exc = e
     # oracle for "the proof is valid", independent of the gate: recompute the MAC here
@@ -521,7 +547,7 @@ def replay_chain_call(inputs, ob):
     auth = br.chain_authenticate(*[_native_member(i, o, log) for i, o in enumerate(outcomes)])
     res = exc = None
     try:
-        res = auth(_Req())
+        res = auth(_Req(None, inputs))
     except Exception as e:  # noqa: BLE001
         exc = e
     stop = next((i for i, o in enumerate(outcomes) if o not in ("value_error", "auth_failure")), None)
@@ -552,7 +578,7 @@ def chain_call_unit(S):
         m = SObj(None, kind="Member", idx=i)
         m.closed = True
         members.append(m)
-    req = SObj(None, kind="Req")
+    req = mk_req(S)
     st = {"outcomes": [], "exc": {}, "ctx": {}}
     S.inputs["outcomes"] = st["outcomes"]
 
